@@ -43,7 +43,7 @@ def run(ctx, kernels=None, configs=("stable",), bounds_only=False):
         if not ok:
             ctx.broke("correspondence", "A:harness build (%s)" % cfg, log[-1200:])
             continue
-        imp = runner.impl("sym", cases, config=cfg)
+        imp = runner.impl("sym", cases, config=cfg, timeout=240)
         n_bad = 0
         for c, a, b in zip(cases, imp, mod):
             if a != b and bounds_only:
@@ -79,6 +79,14 @@ def explain(ctx, case, cfg, impl_line, model_line):
     if impl_line is None:
         return
     k, L, d = case.split()[:3]
+    if impl_line.startswith("signal"):
+        # the REAL kernel, run on symbolic elements, killed the harness process or did not come back within the watchdog:
+        # an access outside the symbolic slices' backing store, a panic that aborts, or a loop that does not terminate
+        ctx.violation("sym-crash:%s" % case, "generic kernel %s with %s lanes, dims=%s: the real kernel %s when run on symbolic input "
+                      "(the model terminates in bounds)" % (k, L, d, "did not terminate within the watchdog" if "timeout" in impl_line
+                                                            else "crashed the harness process (%s)" % impl_line),
+                      {"kind": "input", "case": "sym " + case, "build": cfg, "observed": impl_line, "expected": (model_line or "")[:2000]})
+        return
     parts = impl_line.split(" ;")
     bad = []
     if "oob" in impl_line:
